@@ -188,6 +188,56 @@ RecInst(name) ==
 RecInstNames == {"fn-once", "fn-twice", "fn-same-arg-twice", "fn-thrice", "top-twice", "nested-fn", "rec-in-rec", "decl-and-rec", "fn-of-rec",
                  "same-binder-name", "imported-fn", "ref-decl-twice", "mutual"}
 
+\* ---- Ranges, Uris, Xfers: the parts of a resource ---------------------------------------------------
+CntOf(st, md, body) ==
+  Cnt((IF st = "" THEN <<>> ELSE <<Meta("status", IF st = "4XX" THEN LitStatus(st) ELSE LitNum(st))>>)
+      \o (IF md = "" THEN <<>> ELSE <<Meta("media", LitStr(md))>>), <<body>>)
+Statuses == {"", "200", "404", "4XX"}
+Medias == {"", "a/x", "b/y"}
+RangesFamily ==
+  {[main |-> "m1", mods |-> [m \in {"m1"} |-> <<GetTo(Op("::", <<CntOf(s1, m1, Prim("num")), CntOf(s2, m2, Prim("str"))>>))>>]]
+     : s1 \in Statuses, m1 \in Medias, s2 \in Statuses, m2 \in Medias}
+  \cup {[main |-> "m1", mods |-> [m \in {"m1"} |-> <<GetTo(Op("::", <<CntOf(s1, "", OA), C0, CntOf("404", m2, Prim("str"))>>))>>]]
+          : s1 \in {"", "200"}, m2 \in Medias}
+  \cup {[main |-> "m1", mods |-> [m \in {"m1"} |->
+            <<Let("err", Cnt(<<Meta("status", LitStatus("5XX")), Meta("headers", Obj(<<PropReq("X-Id", Prim("str"))>>))>>, <<Obj(<<>>)>>)),
+              Decl("with", <<"s">>, Op("::", <<Cnt(<<Meta("status", LitNum("200"))>>, <<Var("s")>>), Var("err")>>)),
+              GetTo(App(Var("with"), <<OA>>))>>]]}
+
+UriShapes ==
+  {Uri(<<Seg("")>>), Uri(<<Seg("a")>>), Uri(<<Seg("a"), Seg("b")>>), Uri(<<Seg("a"), Seg("")>>),
+   Uri(<<Seg("a"), UVar(Prop("id", Prim("int")))>>), Uri(<<UVar(PropReq("k", Prim("str"))), Seg("x")>>),
+   UriQ(<<Seg("q")>>, Obj(<<Prop("f", Prim("str")), PropReq("g", Prim("num")), PropOpt("h", Prim("bool"))>>)),
+   UriQ(<<Seg("a"), UVar(Prop("id", Prim("int")))>>, Obj(<<PropReq("page", Prim("int"))>>))}
+UrisFamily ==
+  {[main |-> "m1", mods |-> [m \in {"m1"} |-> <<Res(Rel(u, <<Xfer("get", C0)>>))>>]] : u \in UriShapes}
+  \cup {[main |-> "m1", mods |-> [m \in {"m1"} |-> <<Res(Rel(App(Var("concat"), <<u1, u2>>), <<Xfer("get", C0)>>))>>]] : u1 \in UriShapes, u2 \in UriShapes}
+  \cup {[main |-> "m1", mods |-> [m \in {"m1"} |-> <<Let("base", u1), Res(Rel(App(Var("concat"), <<Var("base"), u2>>), <<Xfer("get", C0)>>)), Res(Var("base"))>>]]
+          : u1 \in {Uri(<<Seg("v1")>>), Uri(<<Seg("v1"), Seg("")>>)}, u2 \in UriShapes}
+
+XferShapes ==
+  {<<Xfer("get", C0)>>, <<Xfer("get,put", Cnt(<<>>, <<OA>>))>>, <<Xfer("get", C0), Xfer("put", Cnt(<<>>, <<Prim("num")>>))>>,
+   <<XferP("get", Obj(<<Prop("q", Prim("str")), PropReq("r", Prim("int"))>>), Cnt(<<>>, <<OA>>))>>,
+   <<XferD("put", Cnt(<<>>, <<OA>>), C0)>>,
+   <<XferD("post", Cnt(<<Meta("media", LitStr("a/x")), Meta("headers", Obj(<<Prop("If-Match", Prim("str"))>>))>>, <<OA>>), Cnt(<<Meta("status", LitNum("201"))>>, <<OA>>))>>,
+   <<N("xfer", "patch,delete", "", 3, <<Obj(<<Prop("force", Prim("bool"))>>), Cnt(<<>>, <<Prim("str")>>), Op("::", <<C0, CntOf("404", "", Prim("str"))>>)>>)>>,
+   <<Xfer("get", Prim("num")), Xfer("head", C0), Xfer("options", OA)>>}
+XfersFamily ==
+  {[main |-> "m1", mods |-> [m \in {"m1"} |-> <<Res(Rel(Uri(<<Seg("x")>>), xs))>>]] : xs \in XferShapes}
+  \cup {[main |-> "m1", mods |-> [m \in {"m1"} |-> <<Let("op", xs[1]), Res(Rel(Uri(<<Seg("x")>>), <<Var("op")>>)), Res(Rel(Uri(<<Seg("y")>>), <<Var("op")>>))>>]] : xs \in XferShapes}
+
+\* schemas to depth 2 and marks in the three places they can be written
+SchemaLeaves == {Prim("num"), Prim("str"), Prim("bool"), Prim("int"), Prim("uri"), Obj(<<>>), Uri(<<Seg("s")>>)}
+SchemaL1 == SchemaLeaves \cup {Arr(x) : x \in SchemaLeaves}
+            \cup {Obj(<<Prop("a", x), PropReq("b", Prim("num")), PropOpt("c", Prim("str"))>>) : x \in SchemaLeaves}
+            \cup {Op(o, <<x, OA>>) : o \in {"~", "|"}, x \in {Prim("num"), OA, Arr(Prim("str"))}}
+            \cup {Op("&", <<OA, Obj(<<Prop("z", x)>>)>>) : x \in SchemaLeaves}
+            \cup {Obj(<<Un("!", Prop("m", Prim("num"))), Un("?", PropReq("n", Prim("str")))>>)}
+SchemasFamily ==
+  {[main |-> "m1", mods |-> [m \in {"m1"} |-> <<Body(x)>>]] : x \in SchemaL1}
+  \cup {[main |-> "m1", mods |-> [m \in {"m1"} |-> <<Body(Obj(<<Prop("o", x), Prop("l", Arr(x))>>))>>]] : x \in SchemaL1}
+  \cup {[main |-> "m1", mods |-> [m \in {"m1"} |-> <<LetRef("@s", x), Body(Obj(<<Prop("r", Var("@s")), Prop("q", Arr(Var("@s")))>>))>>]] : x \in SchemaL1}
+
 AllPositions == {"body", "range", "domain", "headers", "media", "status", "reluri", "res", "xferlist", "proprhs", "objitem",
                  "arritem", "join", "any", "sum", "rangeop", "unary", "urivar", "apparg", "recbody", "refdecl", "concat"}
 AllShapes == {"num", "str", "uriprim", "obj", "obj0", "arr", "prop", "propreq", "unopt", "join", "any", "sum", "sumobj", "cnt", "cnt0",
